@@ -635,6 +635,21 @@ class Sealed:
     x: int = 0
 NSealed = typing.NewType("NSealed", Sealed)
 ASealed = typing.TypeAliasType("ASealed", Sealed)
+class _Registry(type):
+    # a class object that is FALSY (an empty registry): a key like any other
+    def __len__(cls):
+        return 0
+class Shelf(metaclass=_Registry):
+    pass
+class _Off(type):
+    def __bool__(cls):
+        return False
+class Flag(metaclass=_Off):
+    pass
+NShelf = typing.NewType("NShelf", Shelf)
+AShelf = typing.TypeAliasType("AShelf", Shelf)
+FShelf = typing.TypeAliasType("FShelf", typing.Final[Shelf])
+NFShelf = typing.NewType("NFShelf", typing.Final[Shelf])
 Mode = typing.Literal["r", "w"]
 ModeAlias = typing.TypeAliasType("ModeAlias", typing.Literal["r", "w"])
 # an alias whose VALUE is a qualified type (a class-level constant given a name)
@@ -655,7 +670,12 @@ DEEP_CHAINS = [("NA", "K", ["A"]), ("NN", "K", ["N"]), ("NNA", "K", ["NA", "A"])
                ("typing.ClassVar[typing.Literal['r', 'w']]", "Mode", []), ("typing.Final[typing.Literal['r', 'w']]", "Mode", []),
                ("ModeAlias", "Mode", []), ("typing.ClassVar[ModeAlias]", "Mode", ["ModeAlias"]), ("typing.Final[ModeAlias]", "Mode", ["ModeAlias"]),
                ("SharedInt", "int", []), ("SharedK", "K", ["A"]), ("NSharedK", "K", ["SharedK"]),
-               ("Limit", "int", []), ("LimitK", "K", ["A"]), ("NLimitK", "K", ["LimitK"]), ("typing.ClassVar[Limit]", "int", ["Limit"])]
+               ("Limit", "int", []), ("LimitK", "K", ["A"]), ("NLimitK", "K", ["LimitK"]), ("typing.ClassVar[Limit]", "int", ["Limit"]),
+               # falsy class objects under every wrapper
+               ("Shelf", "Shelf", []), ("NShelf", "Shelf", []), ("AShelf", "Shelf", []), ("typing.Final[Shelf]", "Shelf", []),
+               ("typing.ClassVar[Shelf]", "Shelf", []), ("FShelf", "Shelf", []), ("NFShelf", "Shelf", []), ("typing.Final[NShelf]", "Shelf", ["NShelf"]),
+               ("typing.ClassVar[AShelf]", "Shelf", ["AShelf"]), ("typing.Final[Flag]", "Flag", []), ("typing.ClassVar[Flag]", "Flag", []),
+               ("typing.Optional[Flag]", "typing.Optional[Flag]", [])]
 
 
 def _deep_child(_job):
